@@ -33,7 +33,7 @@ ASSUMPTIONS = [
 BUDGET_S = {"quick": 600, "thorough": 1800}
 QUERY_TIMEOUT_MS = {"quick": 30000, "thorough": 60000}
 
-STATES = ["fresh", "preprocessed-only", "settings-only", "unsuccessful-fit", "fitted", "fitted-no-contact-point"]
+STATES = ["fresh", "preprocessed-only", "settings-only", "unsuccessful-fit", "unsuccessful-fit-stale-parameters", "fitted", "fitted-no-contact-point"]
 CHANGES = ["none", "hash", "regressor", "training_set", "names", "lda", "lda-false-vs-none", "names-empty-vs-none", "preprocessing"]
 
 
@@ -51,6 +51,11 @@ def tasks(tier):
     for pat in ("bin-nan", "con-nan"):
         ts.append({"name": f"total:fitted:{pat}", "fn": "t_state", "args": {"state": "fitted", "pattern": pat},
                    "witnesses": ["rated"]})
+    if tier == "thorough":
+        from harness.c17 import ALL as FEATS
+        for nm in FEATS:
+            ts.append({"name": f"total:fitted:nan={nm}", "fn": "t_state",
+                       "args": {"state": "fitted", "pattern": "nan:" + nm}, "witnesses": ["rated"]})
     for ch in CHANGES:
         ts.append({"name": f"cache:{ch}", "fn": "t_cache", "args": {"change": ch}, "witnesses": ["second-call"]})
     return ts
@@ -73,13 +78,18 @@ def _setup(state, pattern="sym"):
     if state in ("preprocessed-only",):
         dict.__setitem__(fp, "preprocessing", ["compute_tip_position"])
         dict.__setitem__(fp, "preprocessing_options", {})
-    if state in ("settings-only", "unsuccessful-fit", "fitted", "fitted-no-contact-point"):
+    if state in ("settings-only", "unsuccessful-fit", "unsuccessful-fit-stale-parameters", "fitted", "fitted-no-contact-point"):
         for k, v in w.modules["nanite.fit"].FP_DEFAULT.items():
             dict.__setitem__(fp, k, copy.deepcopy(v))
         dict.__setitem__(fp, "params_initial", md.get_parameter_defaults())
-    if state == "unsuccessful-fit":
+    if state in ("unsuccessful-fit", "unsuccessful-fit-stale-parameters"):
         dict.__setitem__(fp, "success", False)
         dict.__setitem__(fp, "hash", "h1")
+    if state == "unsuccessful-fit-stale-parameters":
+        Pst = md.get_parameter_defaults()
+        Pst["contact_point"].value = real("cp_stale")
+        dict.__setitem__(fp, "params_fitted", Pst)
+        idnt["fit"] = symnp.SymArr([float("nan")] * n)
     if state in ("fitted", "fitted-no-contact-point"):
         dict.__setitem__(fp, "success", True)
         dict.__setitem__(fp, "hash", "h1")
@@ -97,11 +107,11 @@ def _setup(state, pattern="sym"):
             if nm.startswith("feat_bin_"):
                 v = real("v_" + nm)
                 assume(core.any_of([v == 0, v == 1]))
-                if pattern == "bin-nan" and nm == "feat_bin_cp_position":
+                if (pattern == "bin-nan" and nm == "feat_bin_cp_position") or pattern == "nan:" + nm:
                     v = float("nan")
             else:
                 v = real("v_" + nm)
-                if pattern == "con-nan" and nm == "feat_con_apr_sum":
+                if (pattern == "con-nan" and nm == "feat_con_apr_sum") or pattern == "nan:" + nm:
                     v = float("nan")
             fvals[nm] = v
             setattr(feats_mod.IndentationFeatures, nm, (lambda val: (lambda self: val))(v))
